@@ -435,6 +435,12 @@ where
                                     trace!(parent: &span, "sync done sent and received");
                                     break;
                                 }
+
+                                // Both arms are disabled but we haven't seen the remote's "done"
+                                // message: the remote closed the stream. Looping here again would
+                                // poll the closed stream forever without ever yielding.
+                                debug!(parent: &span, "Stream closed unexpectedly");
+                                return Err(LogSyncError::UnexpectedStreamClosure);
                             }
                         }
                     }
